@@ -136,7 +136,7 @@ Section Top.
     destruct (complete_all classify) as (CB & _).
     assert (A0 : at_ (init_pst ts) ts []) by (repeat split; assumption).
     pose proof (pblock_loc classify _ _ (CB _ _ HB) fuel (init_pst ts) [] A0) as P.
-    destruct (mono_all classify fuel) as (_ & M2 & _). pose proof (M2 _ _ _ E) as [_ Hlex].
+    destruct (mono_all classify fuel) as (_ & M2 & _). pose proof (M2 _ _ _ E) as (_ & Hlex & _).
     rewrite E in *. cbn [post] in P. destruct P as (R & Pe & _).
     rewrite (expect_ok st1 e [] TkEOF R K).
     assert (Hp : perrs (next st1) = []) by (rewrite perrs_next; exact Pe).
